@@ -87,7 +87,11 @@ pub fn lonlat_to_cell(lonlat: LonLat, resolution: i32) -> Result<u64, String> {
         }
     }
 
-    // As fallback, sort cells by distance and use the closest one
+    // As fallback, use the closest cell. The value returned by contains_point is only proportional
+    // to the distance and degenerates next to a pentagon vertex, so rank by the true distance
+    for cell in cells.iter_mut() {
+        cell.1 = -a5cell_distance_to_point(&cell.0, lonlat)?;
+    }
     cells.sort_by(|a, b| b.1.partial_cmp(&a.1).unwrap_or(std::cmp::Ordering::Equal));
     #[cfg(feature = "verif")]
     crate::verif::set_lookup_branch(1000);
@@ -248,6 +252,31 @@ pub fn cell_to_boundary(
     // throughout the whole codebase
     normalized_boundary.reverse();
     Ok(normalized_boundary)
+}
+
+/// Planar distance from a point to the boundary of an A5 cell, measured in the cell's face plane
+fn a5cell_distance_to_point(cell: &A5Cell, point: LonLat) -> Result<f64, String> {
+    let spherical = from_lon_lat(point);
+    let dodecahedron = DodecahedronProjection::get_thread_local();
+    let projected_point = dodecahedron.forward(spherical, cell.origin_id)?;
+    let pentagon = get_pentagon(cell)?;
+    let vertices = pentagon.get_vertices_vec();
+    let n = vertices.len();
+
+    let mut distance = f64::INFINITY;
+    for i in 0..n {
+        let v1 = vertices[i];
+        let v2 = vertices[(i + 1) % n];
+        let (ex, ey) = (v2.x() - v1.x(), v2.y() - v1.y());
+        let (px, py) = (projected_point.x() - v1.x(), projected_point.y() - v1.y());
+
+        // Closest point on the edge segment
+        let t = ((px * ex + py * ey) / (ex * ex + ey * ey)).clamp(0.0, 1.0);
+        let (dx, dy) = (px - t * ex, py - t * ey);
+        distance = distance.min((dx * dx + dy * dy).sqrt());
+    }
+
+    Ok(distance)
 }
 
 /// Test if an A5 cell contains a given point
